@@ -14,34 +14,34 @@ Open Scope Z_scope.
 Definition fp2_of_base_Z (z : Z) : Fp2 := (toFp z, toFp 0).
 Global Instance Fp2OfBase : OfBase Fp2 := fp2_of_base_Z.
 
-Definition nat_of (z : Z) : nat := Z.to_nat z.
+Definition gnat_of (z : Z) : nat := Z.to_nat z.
 
 Definition parse_gate (a : list Z) : option (gate * list Z) :=
   match a with
-  | 0 :: n :: r => Some (ArithmeticGate (nat_of n), r)
-  | 1 :: n :: r => Some (ArithmeticExtensionGate (nat_of n), r)
-  | 2 :: n :: r => Some (MulExtensionGate (nat_of n), r)
-  | 3 :: b :: n :: r => Some (BaseSumGate (nat_of b) (nat_of n), r)
-  | 4 :: n :: r => Some (ConstantGate (nat_of n), r)
+  | 0 :: n :: r => Some (ArithmeticGate (gnat_of n), r)
+  | 1 :: n :: r => Some (ArithmeticExtensionGate (gnat_of n), r)
+  | 2 :: n :: r => Some (MulExtensionGate (gnat_of n), r)
+  | 3 :: b :: n :: r => Some (BaseSumGate (gnat_of b) (gnat_of n), r)
+  | 4 :: n :: r => Some (ConstantGate (gnat_of n), r)
   | 5 :: bits :: degree :: nw :: r =>
-      Some (CosetInterpolationGate (nat_of bits) (nat_of degree) (firstn (nat_of nw) r), skipn (nat_of nw) r)
-  | 6 :: n :: r => Some (ExponentiationGate (nat_of n), r)
+      Some (CosetInterpolationGate (gnat_of bits) (gnat_of degree) (firstn (gnat_of nw) r), skipn (gnat_of nw) r)
+  | 6 :: n :: r => Some (ExponentiationGate (gnat_of n), r)
   | 7 :: r => Some (PoseidonGate, r)
   | 8 :: r => Some (PoseidonMdsGate, r)
   | 9 :: r => Some (PublicInputGate, r)
-  | 10 :: bits :: copies :: extra :: r => Some (RandomAccessGate (nat_of bits) (nat_of copies) (nat_of extra), r)
-  | 11 :: n :: r => Some (ReducingGate (nat_of n), r)
-  | 12 :: n :: r => Some (ReducingExtensionGate (nat_of n), r)
+  | 10 :: bits :: copies :: extra :: r => Some (RandomAccessGate (gnat_of bits) (gnat_of copies) (gnat_of extra), r)
+  | 11 :: n :: r => Some (ReducingGate (gnat_of n), r)
+  | 12 :: n :: r => Some (ReducingExtensionGate (gnat_of n), r)
   | 13 :: r => Some (NoopGate, r)
-  | 14 :: n :: r => Some (LookupGate (nat_of n), r)
-  | 15 :: n :: r => Some (LookupTableGate (nat_of n), r)
+  | 14 :: n :: r => Some (LookupGate (gnat_of n), r)
+  | 15 :: n :: r => Some (LookupTableGate (gnat_of n), r)
   | _ => None
   end.
 
 (* <n> x_1 .. x_(n*width) *)
-Definition parse_vec (width : nat) (a : list Z) : option (list Z * list Z) :=
+Definition gparse_vec (width : nat) (a : list Z) : option (list Z * list Z) :=
   match a with
-  | n :: r => let k := (nat_of n * width)%nat in
+  | n :: r => let k := (gnat_of n * width)%nat in
               if Nat.leb k (length r) then Some (firstn k r, skipn k r) else None
   | _ => None
   end.
@@ -55,18 +55,18 @@ Definition gunpairs (l : list Fp2) : list Z := flat_map (fun p => [fval (fst p);
 Definition gfps (l : list Z) : list Fp := map toFp l.
 Definition gzs (l : list Fp) : list Z := map fval l.
 
-Definition sized (g : gate) (nconsts nwires : nat) : bool :=
+Definition gsized (g : gate) (nconsts nwires : nat) : bool :=
   gate_wf g && Nat.leb (gate_num_constants g) nconsts && Nat.leb (gate_eval_wires g) nwires.
 
 (* evalbase <gate> <nconsts> c.. <nwires> w.. pi0 pi1 pi2 pi3 : Gate::eval_unfiltered_base_batch, one point *)
-Definition run_evalbase (a : list Z) : option (list Z) :=
+Definition run_gate_evalbase (a : list Z) : option (list Z) :=
   match parse_gate a with
   | Some (g, r) =>
-    match parse_vec 1 r with
+    match gparse_vec 1 r with
     | Some (cs, r) =>
-      match parse_vec 1 r with
+      match gparse_vec 1 r with
       | Some (ws, pi) =>
-        if sized g (length cs) (length ws) && Nat.eqb (length pi) 4
+        if gsized g (length cs) (length ws) && Nat.eqb (length pi) 4
         then Some (gzs (gate_eval_unfiltered g (gfps cs) (gfps ws) (gfps pi)))
         else None
       | None => None end
@@ -75,14 +75,14 @@ Definition run_evalbase (a : list Z) : option (list Z) :=
   end.
 
 (* basevsext: num_constraints, then the base-field values, then the extension-field values of the embedded row *)
-Definition run_basevsext (a : list Z) : option (list Z) :=
+Definition run_gate_basevsext (a : list Z) : option (list Z) :=
   match parse_gate a with
   | Some (g, r) =>
-    match parse_vec 1 r with
+    match gparse_vec 1 r with
     | Some (cs, r) =>
-      match parse_vec 1 r with
+      match gparse_vec 1 r with
       | Some (ws, pi) =>
-        if sized g (length cs) (length ws) && Nat.eqb (length pi) 4
+        if gsized g (length cs) (length ws) && Nat.eqb (length pi) 4
         then Some (Z.of_nat (gate_num_constraints g)
                    :: gzs (gate_eval_unfiltered g (gfps cs) (gfps ws) (gfps pi))
                    ++ gunpairs (gate_eval_unfiltered g (map fp2_of_base_Z cs) (map fp2_of_base_Z ws) (map fp2_of_base_Z pi)))
@@ -93,14 +93,14 @@ Definition run_basevsext (a : list Z) : option (list Z) :=
   end.
 
 (* evalext: Gate::eval_unfiltered over the quadratic extension (also the in-circuit evaluator) *)
-Definition run_evalext (a : list Z) : option (list Z) :=
+Definition run_gate_evalext (a : list Z) : option (list Z) :=
   match parse_gate a with
   | Some (g, r) =>
-    match parse_vec 2 r with
+    match gparse_vec 2 r with
     | Some (cs, r) =>
-      match parse_vec 2 r with
+      match gparse_vec 2 r with
       | Some (ws, pi) =>
-        if sized g (Nat.div2 (length cs)) (Nat.div2 (length ws)) && Nat.eqb (length pi) 4
+        if gsized g (Nat.div2 (length cs)) (Nat.div2 (length ws)) && Nat.eqb (length pi) 4
         then Some (gunpairs (gate_eval_unfiltered g (gpairs cs) (gpairs ws) (map fp2_of_base_Z pi)))
         else None
       | None => None end
@@ -109,14 +109,14 @@ Definition run_evalext (a : list Z) : option (list Z) :=
   end.
 
 (* generate <gate> <nconsts> c.. <nwires> w.. : the row after running the gate's generators (release build) *)
-Definition run_generate (a : list Z) : option (list Z) :=
+Definition run_gate_generate (a : list Z) : option (list Z) :=
   match parse_gate a with
   | Some (g, r) =>
-    match parse_vec 1 r with
+    match gparse_vec 1 r with
     | Some (cs, r) =>
-      match parse_vec 1 r with
+      match gparse_vec 1 r with
       | Some (ws, []) =>
-        if sized g (length cs) (length ws)
+        if gsized g (length cs) (length ws)
         then option_map gzs (gate_generate g (gfps cs) (gfps ws))
         else None
       | _ => None end
@@ -126,14 +126,14 @@ Definition run_generate (a : list Z) : option (list Z) :=
 
 (* genguard: 1 if the debug assertions of the generators hold and they do not panic (debug build);
    0 also when the row is too short for the generators' reads *)
-Definition run_genguard (a : list Z) : option (list Z) :=
+Definition run_gate_genguard (a : list Z) : option (list Z) :=
   match parse_gate a with
   | Some (g, r) =>
-    match parse_vec 1 r with
+    match gparse_vec 1 r with
     | Some (cs, r) =>
-      match parse_vec 1 r with
+      match gparse_vec 1 r with
       | Some (ws, []) =>
-        Some [if sized g (length cs) (length ws)
+        Some [if gsized g (length cs) (length ws)
               then match gate_generate g (gfps cs) (gfps ws) with
                    | Some _ => if gate_gen_guard g (gfps ws) then 1 else 0
                    | None => 0 end
@@ -145,15 +145,15 @@ Definition run_genguard (a : list Z) : option (list Z) :=
 
 (* pinned <gate> <nconsts> c.. <nwires> row.. pi0..pi3 <wire> <value> :
    base-field constraint values of the row with one wire replaced *)
-Definition run_pinned (a : list Z) : option (list Z) :=
+Definition run_gate_pinned (a : list Z) : option (list Z) :=
   match parse_gate a with
   | Some (g, r) =>
-    match parse_vec 1 r with
+    match gparse_vec 1 r with
     | Some (cs, r) =>
-      match parse_vec 1 r with
+      match gparse_vec 1 r with
       | Some (ws, [p0; p1; p2; p3; w; v]) =>
-        if sized g (length cs) (length ws) && Nat.ltb (nat_of w) (length ws)
-        then Some (gzs (gate_eval_unfiltered g (gfps cs) (upd (gfps ws) (nat_of w) (toFp v)) (gfps [p0; p1; p2; p3])))
+        if gsized g (length cs) (length ws) && Nat.ltb (gnat_of w) (length ws)
+        then Some (gzs (gate_eval_unfiltered g (gfps cs) (upd (gfps ws) (gnat_of w) (toFp v)) (gfps [p0; p1; p2; p3])))
         else None
       | _ => None end
     | None => None end
@@ -161,7 +161,7 @@ Definition run_pinned (a : list Z) : option (list Z) :=
   end.
 
 (* sizes <gate> = num_wires num_constants degree num_constraints *)
-Definition run_sizes (a : list Z) : option (list Z) :=
+Definition run_gate_sizes (a : list Z) : option (list Z) :=
   match parse_gate a with
   | Some (g, []) =>
     if gate_wf g then
@@ -171,20 +171,20 @@ Definition run_sizes (a : list Z) : option (list Z) :=
   end.
 
 (* written <gate> = sorted list of the wires the gate's generators write *)
-Fixpoint insert_sorted (x : nat) (l : list nat) : list nat :=
+Fixpoint ginsert_sorted (x : nat) (l : list nat) : list nat :=
   match l with
   | [] => [x]
-  | y :: t => if Nat.leb x y then (if Nat.eqb x y then l else x :: l) else y :: insert_sorted x t
+  | y :: t => if Nat.leb x y then (if Nat.eqb x y then l else x :: l) else y :: ginsert_sorted x t
   end.
-Definition run_written (a : list Z) : option (list Z) :=
+Definition run_gate_written (a : list Z) : option (list Z) :=
   match parse_gate a with
   | Some (g, []) =>
-    if gate_wf g then Some (map Z.of_nat (fold_right insert_sorted [] (gate_written g))) else None
+    if gate_wf g then Some (map Z.of_nat (fold_right ginsert_sorted [] (gate_written g))) else None
   | _ => None
   end.
 
 (* lowdeg <gate> <measured max degree> <witness degree> = declared degree, num_constraints *)
-Definition run_lowdeg (a : list Z) : option (list Z) :=
+Definition run_gate_lowdeg (a : list Z) : option (list Z) :=
   match parse_gate a with
   | Some (g, [_; _]) => Some (map Z.of_nat [gate_degree g; gate_num_constraints g])
   | _ => None
@@ -202,38 +202,38 @@ Definition gate_abs_degree (g : gate) : nat :=
     (@gate_eval_unfiltered nat DegOps DegOfBase g (repeat 1%nat (gate_num_constants g))
        (repeat 1%nat (Nat.max (gate_eval_wires g) (gate_num_wires g))) (repeat 0%nat 4)).
 (* absdeg <gate> = 1 iff the abstract degree does not exceed the declared degree *)
-Definition run_absdeg (a : list Z) : option (list Z) :=
+Definition run_gate_absdeg (a : list Z) : option (list Z) :=
   match parse_gate a with
   | Some (g, []) => if gate_wf g then Some [if Nat.leb (gate_abs_degree g) (gate_degree g) then 1 else 0] else None
   | _ => None
   end.
 
 (* circuit_agrees <gate> .. = 1 : Rust-side comparison of eval_unfiltered_circuit with eval_unfiltered *)
-Definition run_circuit_agrees (a : list Z) : option (list Z) := Some [1].
+Definition run_gate_circuit_agrees (a : list Z) : option (list Z) := Some [1].
 
 (* filter row lo hi many s0 s1 : compute_filter over Fp2 *)
-Definition run_filter (a : list Z) : option (list Z) :=
+Definition run_gate_filter (a : list Z) : option (list Z) :=
   match a with
   | [row; lo; hi; many; s0; s1] =>
     if Z.leb lo row && Z.ltb row hi then
-      Some (gunpairs [compute_filter (nat_of row) (nat_of lo) (nat_of hi) (toFp s0, toFp s1) (negb (Z.eqb many 0))])
+      Some (gunpairs [compute_filter (gnat_of row) (gnat_of lo) (gnat_of hi) (toFp s0, toFp s1) (negb (Z.eqb many 0))])
     else None
   | _ => None
   end.
 
 (* evalfiltered <gate> <nconsts> c.. <nwires> w.. pi0..pi3 row selector_index lo hi num_selectors num_lookup_selectors *)
-Definition run_evalfiltered (a : list Z) : option (list Z) :=
+Definition run_gate_evalfiltered (a : list Z) : option (list Z) :=
   match parse_gate a with
   | Some (g, r) =>
-    match parse_vec 2 r with
+    match gparse_vec 2 r with
     | Some (cs, r) =>
-      match parse_vec 2 r with
+      match gparse_vec 2 r with
       | Some (ws, [p0; p1; p2; p3; row; sel; lo; hi; nsel; nlsel]) =>
         let nc := Nat.div2 (length cs) in
-        if gate_wf g && Nat.leb (nat_of nsel + nat_of nlsel + gate_num_constants g) nc
-           && Nat.leb (gate_eval_wires g) (Nat.div2 (length ws)) && Nat.ltb (nat_of sel) nc
+        if gate_wf g && Nat.leb (gnat_of nsel + gnat_of nlsel + gate_num_constants g) nc
+           && Nat.leb (gate_eval_wires g) (Nat.div2 (length ws)) && Nat.ltb (gnat_of sel) nc
         then Some (gunpairs (eval_filtered g (gpairs cs) (gpairs ws) (map fp2_of_base_Z [p0; p1; p2; p3])
-                                          (nat_of row) (nat_of sel) (nat_of lo) (nat_of hi) (nat_of nsel) (nat_of nlsel)))
+                                          (gnat_of row) (gnat_of sel) (gnat_of lo) (gnat_of hi) (gnat_of nsel) (gnat_of nlsel)))
         else None
       | _ => None end
     | None => None end
@@ -241,10 +241,10 @@ Definition run_evalfiltered (a : list Z) : option (list Z) :=
   end.
 
 (* cosetnew bits = degree weights.. : CosetInterpolationGate::new(bits) *)
-Definition run_cosetnew (a : list Z) : option (list Z) :=
+Definition run_gate_cosetnew (a : list Z) : option (list Z) :=
   match a with
   | [bits] =>
-    match coset_gate_new (nat_of bits) with
+    match coset_gate_new (gnat_of bits) with
     | CosetInterpolationGate _ degree weights => Some (Z.of_nat degree :: weights)
     | _ => None
     end
@@ -252,5 +252,5 @@ Definition run_cosetnew (a : list Z) : option (list Z) :=
   end.
 
 (* subgroup bits = two_adic_subgroup(bits) *)
-Definition run_subgroup (a : list Z) : option (list Z) :=
-  match a with [bits] => Some (two_adic_subgroup (nat_of bits)) | _ => None end.
+Definition run_gate_subgroup (a : list Z) : option (list Z) :=
+  match a with [bits] => Some (two_adic_subgroup (gnat_of bits)) | _ => None end.
